@@ -80,6 +80,7 @@ def run(case):
     knobs = case['knobs']
     with C.scratch() as root:
         gd, written = W.write_world(world, root, knobs)
+        C.prelude(world, knobs, root, out['faults'])
         before = C.tree_digest(root)
         arg, order = C.path_argument(world, gd, case['path'])
         lc = bool(world.get('lc'))
